@@ -221,7 +221,7 @@ fn run_dd_history(arm: &str, seed: u64, run: u64, agg: &mut Agg, explicit: Optio
             let long_arcs = arm == "dd-history-longarc";
             let narrow = arm == "dd-history-narrow";
             let mut trng = rng.fork(1);
-            let mut t = Table::generate(&mut trng, GenOpts { depth_free: arm == "dd-history-depthfree", long_arcs, max_n: 6, max_s: 6, reconverge: false, dom_friendly: false, few_dead_arcs: narrow, knapsack_quarters: 0 });
+            let mut t = Table::generate(&mut trng, GenOpts { depth_free: arm == "dd-history-depthfree", long_arcs, max_n: 6, max_s: 6, reconverge: false, dom_friendly: false, few_dead_arcs: narrow, knapsack_quarters: 0, top_merge_quarters: if narrow { 2 } else { 1 } });
             if arm == "dd-history" && rng.chance(1, 3) { t.rub = Rub::None; }
             let dd = *rng.pick(&[Dd::Lel, Dd::Fc, Dd::Pooled]);
             let inst = Inst::new(t.clone());
